@@ -1456,6 +1456,15 @@ func (s *Netceptor) handleRoutingUpdate(ri *routingUpdate, recvConn string) {
 		// Our peer is still trying to initialize
 		return
 	}
+	for _, cost := range ri.Connections {
+		if !(cost > 0) {
+			// Connection costs are always positive (see runProtocol); a zero or negative
+			// cost would make the shortest-path calculation loop forever.
+			s.Logger.SanitizedWarning("Ignoring routing update from %s with a non-positive connection cost\n", ri.NodeID)
+
+			return
+		}
+	}
 	if ri.NodeID == s.nodeID {
 		if ri.UpdateEpoch == s.epoch {
 			return
